@@ -96,6 +96,29 @@ CHECKS.update({
 
 NOT_YET = {}
 
+# What rounds 3 and 4 of the seeded changes added to every workload that can carry it (DESIGN.md B.6, B.7).
+EXTRA = {
+ "C01": " Histories also contain machine reboots over a surviving segment, suspends, short reads of the PHC attribute, a lagging coarse realtime clock; the real ShmWriter is the sink (publications seen through the file).",
+ "C02": " Also: a new incarnation over a half-written segment stopped after 0..3 outcomes; the hooked daemon under signals and worker deaths with the single-writer monitor; threads with own contexts in a C client on a continuously updated keyed segment; scenario environments (umask, file mode/owner/mtime, symlink, hard link), hostile errno and signals.",
+ "C03": " Also: a context opened by main() and used by other threads after each publication (C client); 4-20 million idle calls before a publication; scenario environments; hostile errno and signals.",
+ "C04": " Also: scenario environments (umask, mode, owner, mtime, symlink, hard link of the pre-existing file); a waiting client retrying its attach under a descriptor limit and beyond vm.max_map_count.",
+ "C05": " Also: clocks of other semantics (BOOTTIME ahead, coarse realtime lagging), hostile errno/signals/unwritable stderr, 1.3 million identical answers in a row, contexts opened while mmap fails or after the file was replaced, six threads with their own clients, the C library built on its own.",
+ "C06": " Also: clocks of other semantics, hostile caller state, long streaks, contexts (file replaced under a live context, mmap failing at open, a context opened at an odd generation after another context read a trusted record).",
+ "C07": " Also: the real poller with PHC reads failing (transient / throughout / 340 polls in a row) and arriving in pieces; the release binary with reference-id names of every spelling.",
+ "C08": " Also: suspends, wall clock at time-of-day edges and ticking per read, leap 1/2 reports, report-field noise, a tracing subscriber; 7300-outcome lives of the daemon's own writer-thread entry point; the real poller's dropped reports; whole-binary timelines with the segment directory provisioned late.",
+ "C09": " Also: suspends, ticking wall clock with edge reports first, tracing subscriber installed on odd shards.",
+ "C10": " Also: every time of day incl. the last second of a UTC day, random values in unused report fields, the PHC bound attached to the report varying.",
+ "C11": " Also: scenario environments (umask, mode, owner, mtime, symlink, hard link).",
+ "C12": " Also: late (real seconds), wrong-sequence, truncated and other-version replies, reply values differing per poll.",
+ "C13": " Also: suspends, unusable replies, PHC read failures, lives of 3600/3601/7200 polls before chronyd falls silent, reference-id names of every spelling with the attribute absent.",
+ "C14": " Also: hostile errno (work meter: clock reads and sleeps per call), signals, unwritable stderr, 1.3 million identical answers in a row, two threads failing with different error kinds at once (C client).",
+ "C15": " Also: the segment locked by another process, unusable chronyd replies with the writer dying at start-up, a segment directory without a free block, (thorough) a worker stalled for 140 s.",
+ "C16": " Also: pre-existing file modes and daemon umasks, 67 530 opens per file through both libraries, 200 simultaneous unprivileged contexts, write() failing while the segment is created, clients whose real and effective uid differ, threads cycling open/now/close (C client).",
+ "C17": " Also: odd path spellings incl. non-UTF-8 bytes, repeated-open parity, write failures during creation, clockbound_open(path, NULL).",
+ "C18": " Also: the daemon as a separate process stalled alive at every hook point (client thread judged by /proc task state), signals + work meter (sleeps), a standard error that blocks, forked children using an inherited context while another thread is inside a call.",
+ "C19": " Also: other spellings of the rate, whole-life runs with signals and a refusing chronyd sampled every 10 ms, thread-spawn delays through strace injection, 7300-outcome lives of the writer thread (drift field of every record).",
+}
+
 
 def main():
     props = [json.loads(l)["id"] for l in open(os.path.join(V, "properties.jsonl"))]
@@ -104,6 +127,8 @@ def main():
         if pid not in CHECKS:
             continue
         level, text, note, tech, ref = CHECKS[pid]
+        text = text + EXTRA.get(pid, "")
+        ref = ref + ", B.6, B.7"
         checks.append({
             "property_id": pid,
             "quick_cmd": "./check %s quick" % pid,
